@@ -206,7 +206,9 @@ def stepOK (c : Core) (e : Event) : Prop :=
   Inv r.1 ∧ r.2.2 ≠ .failed ∧
   (c.state ≠ .starting → r.1.core.state ≠ .starting) ∧
   (e.isComplete = true → (mk c).outstanding ≠ [] → r.2.2 = .ok ∧ mu r.1 < mu (mk c)) ∧
-  rto (originOf c) r.2.1.moves = true ∧ originAfter (originOf c) r.2.1.moves = originOf r.1.core
+  rto (originOf c) r.2.1.moves = true ∧ originAfter (originOf c) r.2.1.moves = originOf r.1.core ∧
+  (∀ g ∈ allBool, (g = true → c.state = .archiving ∧ c.prior = some .updating) →
+    ghostStep g (mk c) e = true → r.1.core.state = .archiving ∧ r.1.core.prior = some .updating)
 
 instance (c : Core) (e : Event) : Decidable (stepOK c e) := by
   unfold stepOK
@@ -237,7 +239,7 @@ theorem step_ok {s : St} (h : Inv s) (e : Event) (hg : e ≠ .strayRun) :
   by_cases hm : e ∈ probeEvents
   · have := step_ok_core s.core h.1 e hm
     rw [stepOK, ← hs] at this
-    exact ⟨this.1, this.2.1, this.2.2.1, this.2.2.2.2⟩
+    exact ⟨this.1, this.2.1, this.2.2.1, this.2.2.2.2.1, this.2.2.2.2.2.1⟩
   · cases e with
     | complete i b =>
       cases i with
@@ -347,6 +349,44 @@ theorem drain_rest (pick : Nat → Nat × Bool) (n : Nat) (s : St) (h : Inv s)
       · exact hk.2.2.1 hb
       · have := hc.2
         omega
+
+/-- ghost of C11: while a completed reload has not been followed by a `load`, the life-cycle
+    sits in `archiving` (the archive excursion of the reload cycle) -/
+theorem ghost_step {s : St} (h : Inv s) (e : Event) (hg : e ≠ .strayRun) (g : Bool)
+    (hgs : g = true → s.core.state = .archiving ∧ s.core.prior = some .updating) :
+    ghostStep g s e = true →
+      (next s e).core.state = .archiving ∧ (next s e).core.prior = some .updating := by
+  have hs := inv_eq_mk h
+  by_cases hm : e ∈ probeEvents
+  · have := step_ok_core s.core h.1 e hm
+    rw [stepOK, ← hs] at this
+    exact this.2.2.2.2.2.2 g (mem_allBool g) hgs
+  · cases e with
+    | complete i b =>
+      cases i with
+      | zero => cases b <;> simp [probeEvents] at hm
+      | succ i =>
+        have hnone : s.outstanding[i + 1]? = none := by
+          apply List.getElem?_eq_none
+          have := inv_len h
+          omega
+        intro hgh
+        simp only [ghostStep, step_complete_succ h, noop, Out.pure, List.not_mem_nil, if_false,
+          isReloadCompletion, hnone, Bool.or_eq_true] at hgh
+        rcases hgh with hgh | hgh
+        · simpa [next, step_complete_succ h, noop] using hgs hgh
+        · simp at hgh
+    | strayRun => exact absurd rfl hg
+    | _ => simp [probeEvents] at hm
+
+theorem ghost_run {s : St} (h : Inv s) (evs : List Event) (hg : Guarded evs) (g : Bool)
+    (hgs : g = true → s.core.state = .archiving ∧ s.core.prior = some .updating) :
+    (ghostRun g s evs).1 = true → (ghostRun g s evs).2.core.state = .archiving ∧ Inv (ghostRun g s evs).2 := by
+  induction evs generalizing s g with
+  | nil => exact fun hh => ⟨(hgs hh).1, h⟩
+  | cons e es ih =>
+    have hc := guarded_cons hg
+    exact ih (step_ok h e hc.1).1 hc.2 _ (ghost_step h e hc.1 g hgs)
 
 /-! ### invariant of ALL histories (stray `running_trigger`s included) -/
 
